@@ -5,7 +5,7 @@
    An execution is a list of events `evs` every one of which commits: `exec cfg (init cfg) evs = Some s`.
    cfg is arbitrary: any number of servers and clients, any buffer size, per-link FIFO or bag delivery (where a theorem
    needs FIFO it says so), ExploreFail on or off. Crashes, message loss, timeouts, failure-detector outputs are events. *)
-From PGV Require Import C08.Model C08.Proofs1 C08.Proofs2 C08.Proofs3.
+From PGV Require Import C08.Model C08.Proofs1 C08.Proofs2 C08.Proofs3 C08.Proofs4 C08.Proofs5 C08.Proofs6.
 
 (* ElectionSafety == \lnot (\E i, j \in ServerSet: i /= j /\ currentTerm[i] = currentTerm[j]
                                                      /\ state[i] = Leader /\ state[j] = Leader) *)
@@ -51,6 +51,48 @@ Theorem commit_monotone : forall cfg evs1 evs2 s1 s2 i,
 Proof. intros cfg evs1 evs2 s1 s2 i _ H. exact (commit_monotone_steps cfg s1 s2 i (exec_steps cfg s1 evs2 s2 H)). Qed.
 Print Assumptions commit_monotone.
 
+(* LeaderCompleteness, as the property states it ("an entry committed in a term is in the log of every leader of a later term"),
+   along every execution with per-link FIFO delivery: if at some point server i, being in term T, has idx within its commitIndex,
+   then at that point and at every later point of the execution every Leader whose term is >= T holds the same entry at idx.
+   (The invariant of the same name in raftkvs.tla compares with the term of the ENTRY instead and is false: see
+   spec_leader_completeness_as_written_refuted below.) *)
+Theorem leader_completeness : forall cfg evs1 evs2 s1 s2,
+  cfg_fifo cfg = true ->
+  exec cfg (init cfg) evs1 = Some s1 -> exec cfg s1 evs2 = Some s2 ->
+  forall i j idx, is_server cfg i = true -> is_server cfg j = true ->
+    1 <= idx -> idx <= s_commit (srv s1 i) ->
+    s_role (srv s2 j) = Leader -> s_term (srv s1 i) <= s_term (srv s2 j) ->
+    log_at (s_log (srv s2 j)) idx = log_at (s_log (srv s1 i)) idx /\ log_at (s_log (srv s1 i)) idx <> None.
+Proof.
+  intros cfg evs1 evs2 s1 s2 Hf H1 H2.
+  exact (leader_completeness_lemma cfg s1 s2 Hf (exec_reachable cfg evs1 s1 H1) (exec_steps cfg s1 evs2 s2 H2)).
+Qed.
+Print Assumptions leader_completeness.
+
+(* StateMachineSafety == \A i, j \in ServerSet: \A k \in 1..Min({commitIndex[i], commitIndex[j]}): log[i][k] = log[j][k]
+   (and both entries exist) *)
+Theorem state_machine_safety : forall cfg evs s,
+  cfg_fifo cfg = true -> exec cfg (init cfg) evs = Some s ->
+  forall i j k, is_server cfg i = true -> is_server cfg j = true ->
+    1 <= k -> k <= Nat.min (s_commit (srv s i)) (s_commit (srv s j)) ->
+    log_at (s_log (srv s i)) k = log_at (s_log (srv s j)) k /\ log_at (s_log (srv s i)) k <> None.
+Proof. intros cfg evs s Hf H. exact (state_machine_safety_lemma cfg s Hf (exec_reachable cfg evs s H)). Qed.
+Print Assumptions state_machine_safety.
+
+(* ApplyLogOK == \A i, j \in ServerSet: commitIndex[i] = commitIndex[j] => sm[i] = sm[j] /\ smDomain[i] = smDomain[j] *)
+Theorem apply_log_ok : forall cfg evs s,
+  cfg_fifo cfg = true -> exec cfg (init cfg) evs = Some s ->
+  forall i j, is_server cfg i = true -> is_server cfg j = true ->
+    s_commit (srv s i) = s_commit (srv s j) ->
+    s_sm (srv s i) = s_sm (srv s j) /\ s_smdom (srv s i) = s_smdom (srv s j).
+Proof. intros cfg evs s Hf H. exact (apply_log_ok_lemma cfg s Hf (exec_reachable cfg evs s H)). Qed.
+Print Assumptions apply_log_ok.
+
+(* plogOK == \A i \in ServerSet: log[i] = plog[i] *)
+Theorem plog_eq_log : forall cfg evs s, exec cfg (init cfg) evs = Some s -> forall i, s_plog (srv s i) = s_log (srv s i).
+Proof. intros cfg evs s H. exact (plog_eq_log_lemma cfg s (exec_reachable cfg evs s H)). Qed.
+Print Assumptions plog_eq_log.
+
 (* ---------- non-vacuity: a concrete execution with two elections, a client request, replication and a commit ---------- *)
 Definition ex_cfg := mkConfig 3 1 10 true true true.
 Definition ex_evs : list event := [
@@ -79,6 +121,20 @@ Example c08_nonvacuous :
   | None => False
   end.
 Proof. vm_compute. reflexivity. Qed.
+
+(* ... and after one more round of AppendEntries server 3 also has commitIndex 2 and the same store: the hypotheses of
+   state_machine_safety (k = 1, 2), apply_log_ok (commitIndex equal, non-empty store) and leader_completeness (committed index 2,
+   leader of term 4) are met by a concrete execution *)
+Definition ex_evs2 : list event :=
+  ex_evs ++ [EAELoop 1 0; EAESend 1 0 true; EAESend 1 0 true; EAESend 1 0 true; EAESend 1 0 true; EServerLoop 3 0; EHandleMsg 3 0 true].
+Example c08_nonvacuous2 :
+  cfg_fifo ex_cfg = true /\
+  match exec ex_cfg (init ex_cfg) ex_evs2 with
+  | Some s => map (fun i => (s_role (srv s i), s_term (srv s i), List.length (s_log (srv s i)), s_commit (srv s i), s_sm (srv s i))) [1; 3]
+              = [(Leader, 4, 2, 2, [(1, 1)]); (Follower, 4, 2, 2, [(1, 1)])]
+  | None => False
+  end.
+Proof. split; [reflexivity|]. vm_compute. reflexivity. Qed.
 
 (* The invariant LeaderCompleteness AS WRITTEN in raftkvs.tla compares the leader's term with the term of the ENTRY
    (log[i][logIdx].term) instead of the term in which the entry was committed; it is false in the state above
